@@ -44,6 +44,19 @@ Definition spec_a : fit_spec :=
      fs_samples := [{| s_vec := "v0"; s_ll := (-4)%Z; s_inst := "i0" |}; {| s_vec := "v1"; s_ll := (-2)%Z; s_inst := "i1" |};
                     {| s_vec := "v2"; s_ll := (-2)%Z; s_inst := "i2" |}];
      fs_interrupt := NoInterrupt; fs_extra_jsons := ["attr"]; fs_analyses := [["attr"]; ["attr"]] |}.
+(* the same fit, killed while search.json was being written: a folder without metadata *)
+Definition spec_b : fit_spec :=
+  {| fs_prefix := ["pp"]; fs_tag := Some "t1"; fs_name := "s2"; fs_id := "def"; fs_class := "ScriptedSearch";
+     fs_keys := []; fs_reload_id := ""; fs_model := "m"; fs_stored_model := ""; fs_load_error := None;
+     fs_info := Some "i"; fs_samples := []; fs_interrupt := PreFit AtSearchPartial;
+     fs_extra_jsons := ["attr"]; fs_analyses := [] |}.
+Example spec_b_not_an_output :
+  healthy spec_b = false /\ f_metadata (write_fit spec_b) = false /\ f_jsons (write_fit spec_b) = ["info"; "search"].
+Proof. vm_compute. repeat split. Qed.
+Example spec_ab_loads_a :
+  scrape search_classes gs_id_uses_folder false [write_fit spec_b; write_fit spec_a] []
+  = scrape search_classes gs_id_uses_folder false [write_fit spec_a] [].
+Proof. vm_compute. reflexivity. Qed.
 Example spec_a_ok : spec_ok search_classes spec_a /\ NoDup (flat_map ids_of (map write_fit [spec_a])).
 Proof. split; [repeat split | vm_compute; repeat constructor; simpl; intuition discriminate]. Qed.
 Example spec_a_loaded :
